@@ -181,6 +181,7 @@ func runParse(idx int, seed int64, p *ProgDef, argv []string) *ParseObs {
 		obs.Values = append(obs.Values, fmt.Sprintf("%s(%s)=%s called=%v as=%q", o.Name, kindNames[o.Kind], tValue(post.Options[i]).SexpString(), post.Options[i].Called, post.Options[i].UsedAlias))
 	}
 	obs.features()
+	obs.accessPaths(b, p, post)
 	obs.Sample = map[string]interface{}{"mode": modeNames[p.Mode], "argv": obs.ArgvQ, "remaining": quoteAll(obs.Remaining), "err": obs.Err, "options": len(pre.Options), "commands": len(pre.Root.CommandKeys)}
 
 	specs := []*T{}
